@@ -38,6 +38,7 @@ type responseWriter struct {
 	smallResponseBuf []byte
 
 	contentLen     int64 // if handler set valid Content-Length header
+	hasContentLen  bool  // contentLen is valid (a declared length of 0 is enforced as well)
 	numWritten     int64 // bytes written
 	headerComplete bool  // set once WriteHeader is called with a status code >= 200
 	headerWritten  bool  // set once the response header has been serialized to the stream
@@ -108,6 +109,7 @@ func (w *responseWriter) WriteHeader(status int) {
 	if clen := w.header.Get("Content-Length"); clen != "" {
 		if cl, err := strconv.ParseUint(clen, 10, 63); err == nil {
 			w.contentLen = int64(cl)
+			w.hasContentLen = true
 		} else {
 			// emit a warning for malformed Content-Length and remove it
 			logger := w.logger
@@ -144,7 +146,7 @@ func (w *responseWriter) Write(p []byte) (int, error) {
 	}
 
 	w.numWritten += int64(len(p))
-	if w.contentLen != 0 && w.numWritten > w.contentLen {
+	if w.hasContentLen && w.numWritten > w.contentLen {
 		return 0, http.ErrContentLength
 	}
 
